@@ -77,6 +77,11 @@ func gen(tier string, seed int64) []hx.Scenario {
 	for _, t := range trees {
 		out = append(out, hx.Scenario{Name: "hashproof", Cfg: t.String(), Run: func(x *hx.Ctx) { hashCase(x, t) }})
 	}
+	for pair := 0; pair < 3; pair++ {
+		for order := 0; order < 3; order++ {
+			out = append(out, hx.Scenario{Name: "shared-subpredicates", Cfg: fmt.Sprintf("pair=%d order=%d", pair, order), Run: func(x *hx.Ctx) { sharedCase(x, pair, order) }})
+		}
+	}
 	for _, n := range []int{2, 3} {
 		for _, liar := range []int{-1, 0, n - 1} {
 			if liar >= 0 && n == 2 && liar == 0 && false {
@@ -246,6 +251,69 @@ func hashCase(x *hx.Ctx, t tree) {
 			}
 			break
 		}
+	}
+}
+
+// sharedCase: predicate objects are values a caller may combine into several trees (the package documents them as
+// immutable). The same Rep objects occur in two trees that number their variables differently; provers and verifiers of
+// both trees are created and used interleaved in every order of the menu; every proof of a true statement verifies.
+func sharedCase(x *hx.Ctx, pair, order int) {
+	s := x.S
+	r := s.RandomStream()
+	pts := map[string]kyber.Point{"B": s.Point().Base(), "H": s.Point().Pick(r)}
+	sec := map[string]kyber.Scalar{"x": s.Scalar().Pick(r), "y": s.Scalar().Pick(r), "z": s.Scalar().Pick(r)}
+	pts["X"] = s.Point().Mul(sec["x"], pts["B"])
+	pts["Y"] = s.Point().Add(s.Point().Mul(sec["y"], pts["B"]), s.Point().Mul(sec["x"], pts["H"]))
+	pts["Z"] = s.Point().Mul(sec["z"], pts["H"])
+	a := proof.Rep("X", "x", "B")
+	b := proof.Rep("Y", "y", "B", "x", "H")
+	c := proof.Rep("Z", "z", "H")
+	var t1, t2 proof.Predicate
+	ch1, ch2 := map[proof.Predicate]int{}, map[proof.Predicate]int{}
+	switch pair {
+	case 0:
+		t1, t2 = proof.And(a, b), b
+	case 1:
+		t1, t2 = proof.Or(c, proof.And(b, a)), proof.Or(proof.And(a, b), c)
+		ch1[t1], ch2[t2] = 1, 0
+	case 2:
+		t1, t2 = proof.And(b, c, a), proof.And(c, a)
+	}
+	prove := func(id string, pv proof.Prover) []byte {
+		prf, err := proof.HashProve(s, "C14-shared", pv)
+		x.NoErr("HashProve "+id, err)
+		return prf
+	}
+	verify := func(id string, v proof.Verifier, prf []byte) {
+		if prf != nil {
+			x.NoErr("HashVerify "+id, proof.HashVerify(s, "C14-shared", v, prf))
+		}
+	}
+	switch order {
+	case 0: // both provers first, then both verifiers
+		p1 := t1.Prover(s, sec, pts, ch1)
+		p2 := t2.Prover(s, sec, pts, ch2)
+		f1 := prove("tree 1 (prover created before the prover of tree 2)", p1)
+		f2 := prove("tree 2", p2)
+		v1 := t1.Verifier(s, pts)
+		v2 := t2.Verifier(s, pts)
+		verify("tree 1 (verifier created before the verifier of tree 2)", v1, f1)
+		verify("tree 2", v2, f2)
+	case 1: // verifier of tree 1 is created first and used last
+		v1 := t1.Verifier(s, pts)
+		p2 := t2.Prover(s, sec, pts, ch2)
+		f2 := prove("tree 2", p2)
+		verify("tree 2", t2.Verifier(s, pts), f2)
+		f1 := prove("tree 1", t1.Prover(s, sec, pts, ch1))
+		verify("tree 1 with the verifier created first", v1, f1)
+	case 2: // a proof accepted once is accepted again after the other tree was used
+		f1 := prove("tree 1", t1.Prover(s, sec, pts, ch1))
+		v1 := t1.Verifier(s, pts)
+		verify("tree 1", v1, f1)
+		f2 := prove("tree 2", t2.Prover(s, sec, pts, ch2))
+		verify("tree 2", t2.Verifier(s, pts), f2)
+		verify("tree 1 again, same verifier", v1, f1)
+		verify("tree 1 again, fresh verifier", t1.Verifier(s, pts), f1)
 	}
 }
 
